@@ -34,7 +34,7 @@ Definition l_nocube (_ _ : string) : mval := VErr.
 Definition penv_legacy (nr nc c : nat) (mr : bool) (props W UB : list (list xq)) (wv ubv sqv : list xq)
            (flag : string -> bool) (cdf : xq -> xq -> xq) : penv :=
   mkPenv (psize nr nc 0 0) (sel_ix (Z.of_nat c)) no_loop l_noblk no_pblock l_nocube
-         (lslice mr props W UB wv ubv sqv) no_cube3 flag cdf.
+         (lslice mr props W UB wv ubv sqv) no_cube3 flag cdf no_ncdf no_pscal no_ovrows.
 
 (* the matrix the harness hands to the model: the array itself (MR rows) or the vector broadcast *)
 Definition lmat (mr : bool) (M : list (list xq)) (v : list xq) (nr nc : nat) : list (list xq) :=
